@@ -6,6 +6,7 @@ package main
 import (
 	"fmt"
 	"go/constant"
+	"os"
 	"go/types"
 	"sort"
 	"strings"
@@ -305,19 +306,11 @@ func (ex *Exec) appendModel(sv, tv Val, st types.Type, g string, s *State) Val {
 	newArr := u.define("app.arr", SInt, ite(fits, sArr(sT), next))
 	newOff := ite(fits, sOff(sT), "0")
 	capN := u.freshConst("app.cap", SInt)
-	row := u.freshConst("app.row", "(Array Int "+srt+")")
 	oldRowS := sel(A, sArr(sT))
 	oldRowT := sel(A, sArr(tT))
-	j := "j!a"
-	inWin := and(app("<=", plus(sOff(sT), ln), j), app("<", j, plus(plus(sOff(sT), ln), n)))
-	// in place
-	u.fact(implies(and(g, fits), fmt.Sprintf("(forall ((%s Int)) (! (= (select %s %s) %s) :pattern ((select %s %s))))", j, row, j,
-		ite(inWin, sel(oldRowT, plus(sOff(tT), minus(j, plus(sOff(sT), ln)))), sel(oldRowS, j)), row, j)))
-	// fresh array
-	u.fact(implies(and(g, not(fits)), fmt.Sprintf("(forall ((%s Int)) (! (=> (and (<= 0 %s) (< %s %s)) (= (select %s %s) %s)) :pattern ((select %s %s))))", j, j, j, plus(ln, n), row, j,
-		ite(app("<", j, ln), sel(oldRowS, plus(sOff(sT), j)), sel(oldRowT, plus(sOff(tT), minus(j, ln)))), row, j)))
+	row := ex.appendRow(srt, fits, sT, tT, ln, n, oldRowS, oldRowT)
 	u.fact(implies(and(g, not(fits)), app(">=", capN, plus(ln, n))))
-	u.set(s, key, arr2(srt), store(A, newArr, row))
+	u.set(s, key, arr2(srt), ite(eq(n, "0"), A, store(A, newArr, row))) // appending nothing writes nothing
 	u.set(s, "next", SInt, ite(fits, next, plus(next, "1")))
 	u.fact(implies(and(g, not(fits)), eq(app("reftag", next), "0")))
 	res := mkS(newArr, newOff, plus(ln, n), ite(fits, sCap(sT), capN))
@@ -339,21 +332,15 @@ func (ex *Exec) appendStructModel(sv, tv Val, st types.Type, g string, s *State)
 	newArr := u.define("app.arr", SInt, ite(fits, sArr(sT), next))
 	newOff := ite(fits, sOff(sT), "0")
 	capN := u.freshConst("app.cap", SInt)
-	j := "j!a"
-	inWin := and(app("<=", plus(sOff(sT), ln), j), app("<", j, plus(plus(sOff(sT), ln), n)))
 	for _, lf := range leaves(et) {
 		srt := sortOf(lf.Typ)
 		key := "A$" + elemKey(et) + "$" + strings.Join(lf.Path, ".")
 		u.keySort(key, arr2(srt))
 		A := u.get(s, key)
-		row := u.freshConst("app.row", "(Array Int "+srt+")")
 		oldRowS := sel(A, sArr(sT))
 		oldRowT := sel(A, sArr(tT))
-		u.fact(implies(and(g, fits), fmt.Sprintf("(forall ((%s Int)) (! (= (select %s %s) %s) :pattern ((select %s %s))))", j, row, j,
-			ite(inWin, sel(oldRowT, plus(sOff(tT), minus(j, plus(sOff(sT), ln)))), sel(oldRowS, j)), row, j)))
-		u.fact(implies(and(g, not(fits)), fmt.Sprintf("(forall ((%s Int)) (! (=> (and (<= 0 %s) (< %s %s)) (= (select %s %s) %s)) :pattern ((select %s %s))))", j, j, j, plus(ln, n), row, j,
-			ite(app("<", j, ln), sel(oldRowS, plus(sOff(sT), j)), sel(oldRowT, plus(sOff(tT), minus(j, ln)))), row, j)))
-		u.set(s, key, arr2(srt), store(A, newArr, row))
+		row := ex.appendRow(srt, fits, sT, tT, ln, n, oldRowS, oldRowT)
+		u.set(s, key, arr2(srt), ite(eq(n, "0"), A, store(A, newArr, row)))
 	}
 	u.fact(implies(and(g, not(fits)), app(">=", capN, plus(ln, n))))
 	u.set(s, "next", SInt, ite(fits, next, plus(next, "1")))
@@ -424,7 +411,7 @@ func (ex *Exec) applyContract(fr *frame, fc *FuncContract, callee *ssa.Function,
 	if site != nil {
 		where = ex.pos(site.Pos())
 	}
-	caller := shortFn(fr.fn)
+	caller := shortFn(fr.fn) + ex.sfx(fr)
 	for i, r := range fc.Requires {
 		t, err := env.evalBool(r.Expr)
 		if err != nil {
@@ -540,6 +527,10 @@ func (ex *Exec) havocModifies(fc *FuncContract, env *SpecEnv, s *State, g string
 		return
 	}
 	for _, it := range fc.Modifies {
+		if strings.TrimSpace(it) == "newobjects" {
+			ex.havocNewObjects(s, g, oldNext)
+			continue
+		}
 		keys, precise := ex.modItem(it, env)
 		for i, k := range keys {
 			if k == "*" {
@@ -547,7 +538,7 @@ func (ex *Exec) havocModifies(fc *FuncContract, env *SpecEnv, s *State, g string
 				continue
 			}
 			if _, ok := u.keySorts[k]; !ok {
-				continue
+				ex.failf("modifies: key %s has no sort", k)
 			}
 			if precise != nil && precise[i] != "" {
 				srt := u.keySorts[k]
@@ -737,12 +728,61 @@ func (ex *Exec) modelExternal(name string, callee *ssa.Function, args []Val, g s
 	u := ex.u
 	switch name {
 	case "strings.HasPrefix":
+		u.markPattern(args[1].T)
 		return boolVal(app("hasPrefix", args[0].T, args[1].T)), true
 	case "strings.Contains":
+		u.markPattern(args[1].T)
 		return boolVal(app("strContains", args[0].T, args[1].T)), true
 	case "(go/token.Pos).IsValid":
 		return boolVal(not(eq(args[0].T, "0"))), true
 	}
 	_ = u
 	return Val{}, false
+}
+
+// havocNewObjects: every heap array may change, but only at objects allocated after oldNext.
+func (ex *Exec) havocNewObjects(s *State, g string, oldNext string) {
+	u := ex.u
+	if os.Getenv("GOVC_NEWOBJ") != "havoc" {
+		// Default encoding: no havoc at all. The callee writes only cells of objects it allocates, i.e.
+		// indices in [oldNext, next'). No fact emitted so far constrains any heap array at indices at or
+		// beyond the allocation counter (facts are about loaded, i.e. allocated, cells or about the object
+		// being allocated), so the arrays' current values at those indices are arbitrary and stand for
+		// whatever the callee wrote. The explicit-havoc encoding below is kept for cross-checking.
+		return
+	}
+	var ks []string
+	for k := range u.keySorts {
+		if strings.HasPrefix(k, "H$") || strings.HasPrefix(k, "A$") || strings.HasPrefix(k, "M$") || strings.HasPrefix(k, "MD$") || strings.HasPrefix(k, "C$") {
+			ks = append(ks, k)
+		}
+	}
+	sort.Strings(ks)
+	for _, k := range ks {
+		old := u.get(s, k)
+		srt := u.keySorts[k]
+		junk := u.freshConst(k+".new", srt)
+		nw := u.defineArrayDual(k, srt,
+			fmt.Sprintf("(lambda ((x!n Int)) (ite (< x!n %s) (select %s x!n) (select %s x!n)))", oldNext, old, junk),
+			[]string{fmt.Sprintf("(forall ((x!n Int)) (! (= (select $SELF x!n) (ite (< x!n %s) (select %s x!n) (select %s x!n))) :pattern ((select $SELF x!n))))", oldNext, old, junk)})
+		s.vars[k] = nw
+	}
+}
+
+// appendRow: the backing-array row after append(s, t...). In place (fits): cells of the window
+// [off+len, off+len+n) receive t's elements, the rest of s's row is kept. Otherwise a fresh row
+// whose first len+n cells are s's then t's elements (cells beyond are unconstrained).
+func (ex *Exec) appendRow(srt, fits, sT, tT, ln, n, oldRowS, oldRowT string) string {
+	u := ex.u
+	j := "j!a"
+	inWin := and(app("<=", plus(sOff(sT), ln), j), app("<", j, plus(plus(sOff(sT), ln), n)))
+	inPlace := ite(inWin, sel(oldRowT, plus(sOff(tT), minus(j, plus(sOff(sT), ln)))), sel(oldRowS, j))
+	junk := u.freshConst("app.junk", "(Array Int "+srt+")")
+	fresh := ite(and(app("<=", "0", j), app("<", j, plus(ln, n))),
+		ite(app("<", j, ln), sel(oldRowS, plus(sOff(sT), j)), sel(oldRowT, plus(sOff(tT), minus(j, ln)))),
+		sel(junk, j))
+	body := ite(fits, inPlace, fresh)
+	return u.defineArrayDual("app.row", "(Array Int "+srt+")",
+		fmt.Sprintf("(lambda ((%s Int)) %s)", j, body),
+		[]string{fmt.Sprintf("(forall ((%s Int)) (! (= (select $SELF %s) %s) :pattern ((select $SELF %s))))", j, j, body, j)})
 }
